@@ -1,3 +1,4 @@
+\* every builder sequence of <= 4 calls (2 patterns x 2 handler kinds x 2 Cors values x 2 host patterns), all invariants; run with -coverage (vacuity guard)
 CONSTANTS
   Pats = {"/a", "/*"}
   HKinds = {"plain", "ownO"}
